@@ -132,6 +132,9 @@ impl Payload {
 pub enum Cipher {
     Salsa20,
     Arc4,
+    /// a spec written as a struct literal (all fields are public) with a type byte that is
+    /// neither 'S' nor 'A': the encoder must refuse it, or the container must still decode
+    Other(u8),
 }
 
 #[derive(Debug, Clone, Copy, Serialize, Deserialize)]
@@ -234,6 +237,7 @@ fn real_spec(p: &Program, keys: &KeyMap, s: &Spec) -> (EncryptionSpec, [u8; 16])
     let spec = match s.cipher {
         Cipher::Salsa20 => EncryptionSpec::salsa20(e.name, s.iv),
         Cipher::Arc4 => EncryptionSpec::arc4(e.name, s.iv),
+        Cipher::Other(b) => EncryptionSpec { key_name: e.name, iv: s.iv, encryption_type: b },
     };
     (spec, key)
 }
@@ -400,6 +404,9 @@ pub fn interpret(p: &Program, keys: &KeyMap) -> (Built, Model) {
                     }
                 };
                 m.expected.extend_from_slice(&data);
+                if matches!(chunk_enc, Some(Cipher::Other(b)) if b != b'S' && b != b'A') {
+                    m.classes.push("spec:unknown-encryption-type-accepted");
+                }
                 if chunk_enc.is_some() {
                     match dm {
                         M::Z => m.classes.push("enc-inner:zlib"),
